@@ -200,7 +200,6 @@ package route
 // Request decoding helpers: they read the request and allocate new objects; they do not
 // modify the router, process events or write to the response (assumed frames).
 //@ assume route.(*Router).readAndCloseMaybeCompressedBody
-//@ assume route.getDatasetFromRequest
 //@ assume route.(*Router).getEnvironmentName getter
 //@ assume route.newBatchedEvents
 //@   ensures result != nil && isFresh(result)
@@ -422,3 +421,18 @@ package route
 //@   requires next != nil && w != nil && req != nil
 //@   ensures[every-request-is-handed-on-once] served(next) == old(served(next)) + 1
 //@   modifies all(served), all(servedKey), all(hdr), all(respHeader), all(statusWrites), all(lastStatus), all(bodyWrites)
+
+// ---- C19: the dataset named in the path is the dataset the sender named.
+// The sending side (transmit.buildRequestURL, and every libhoney client) writes the
+// dataset with url.PathEscape; the receiving side must read it back with the inverse
+// of exactly that encoding (assumed: PathUnescape(PathEscape(s)) == s, nil - nothing
+// of the kind holds of QueryUnescape, which also turns '+' into a space).
+//@ contract route.getDatasetFromRequest props C19
+//@   requires req != nil
+//@   ensures[a-dataset-written-with-PathEscape-is-read-back-unchanged] forall d string :: d != "" && mux.Vars(req)["datasetName"] == url.PathEscape(d) && url.PathEscape(d) != "" ==> result0 == d && result1 == nil
+
+// ---- C23 (gRPC): husky's AsGRPCError turns an OTLPError into status.Error(GRPCStatusCode, ...), and status.Error
+// returns nil - success - for codes.OK, the zero value. An OTLPError that code under contract for C23 hands on as
+// an `error` must therefore carry a gRPC code (the HTTP handlers pass OTLPError by value to
+// handleOTLPFailureResponse, which reads the HTTP status: those are not conversions to error).
+//@ boxednonzero github.com/honeycombio/husky/otlp.OTLPError.GRPCStatusCode props C23
